@@ -5,6 +5,7 @@
 #include <functional>
 #include <initializer_list>
 #include <iterator>
+#include <memory>
 #include <utility>
 
 #include "allocator.hpp"
@@ -134,6 +135,10 @@ class FlatSet : private Compare {
   template <class InputIt>
   FlatSet(InputIt first, InputIt last, const Alloc &alloc) : FlatSet(first, last, Compare(), alloc) {}
 
+  FlatSet(const FlatSet &o) = default;
+
+  FlatSet(FlatSet &&o) = default;
+
   FlatSet(const FlatSet &o, const Alloc &alloc) : Compare(o.key_comp()), _sortedVector(o._sortedVector, alloc) {}
 
   FlatSet(FlatSet &&o, const Alloc &alloc) : Compare(o.key_comp()), _sortedVector(std::move(o._sortedVector), alloc) {}
@@ -162,6 +167,24 @@ class FlatSet : private Compare {
     return *this;
   }
 #endif
+
+  FlatSet &operator=(const FlatSet &o) {
+    if (this != std::addressof(o)) {
+      compRef() = o.compRef();
+      try {
+        _sortedVector = o._sortedVector;
+      } catch (...) {
+        // copy assignment of the vector only has the basic guarantee: it may hold a mix of old and new elements
+        restoreInvariants();
+        throw;
+      }
+    }
+    return *this;
+  }
+
+  FlatSet &operator=(FlatSet &&o) = default;
+
+  ~FlatSet() = default;
 
   FlatSet &operator=(std::initializer_list<value_type> list) {
     _sortedVector.clear();
@@ -214,11 +237,17 @@ class FlatSet : private Compare {
 
   template <class InputIt>
   void insert(InputIt first, InputIt last) {
-    miterator insertIt = _sortedVector.insert(_sortedVector.end(), first, last);
-    // sort appended elements only (beginning is already sorted)
-    std::stable_sort(insertIt, mend(), compRef());
-    std::inplace_merge(mbegin(), insertIt, mend(), compRef());
-    eraseDuplicates();
+    try {
+      miterator insertIt = _sortedVector.insert(_sortedVector.end(), first, last);
+      // sort appended elements only (beginning is already sorted)
+      std::stable_sort(insertIt, mend(), compRef());
+      std::inplace_merge(mbegin(), insertIt, mend(), compRef());
+      eraseDuplicates();
+    } catch (...) {
+      // nothing to do if the vector has the strong guarantee for insertions at its end, as the vectors of this library
+      restoreInvariants();
+      throw;
+    }
   }
 
   void insert(std::initializer_list<value_type> ilist) { insert(ilist.begin(), ilist.end()); }
@@ -480,6 +509,16 @@ class FlatSet : private Compare {
     }
     // hint does not bring any valuable information, use standard insert
     return insert(std::forward<V>(v)).first;
+  }
+
+  /// To be called when an operation exits by an exception which may have left elements of the vector unordered,
+  /// duplicated or overwritten: keep them if they still are the ordered sequence of a set, give them all up otherwise
+  /// (as std::flat_set does) so that this object stays a set.
+  void restoreInvariants() {
+    const Compare &comp = compRef();
+    if (std::adjacent_find(begin(), end(), [&comp](const T &lhs, const T &rhs) { return !comp(lhs, rhs); }) != end()) {
+      clear();
+    }
   }
 
   Compare &compRef() { return static_cast<Compare &>(*this); }
